@@ -300,4 +300,228 @@ theorem input_overrun_refines (cc : CC) (hi : Inv cc) (data : Bytes) (hd : data 
     simp only [decide_eq_true_eq] at hno
     omega
 
+/-! ### the flush path and the path of a chunk that fits; the general refinement -/
+
+/-- `context->buffer.data[context->buffer.position] = 0;` with its CHECK, as the translator emits it -/
+def storeNul (cc : CC) : CC :=
+  let c := cc.chk (decide (0 ≤ cc.buffer_position ∧ cc.buffer_position < cc.buffer_data.length))
+  { c with buffer_data := c.buffer_data.set c.buffer_position.toNat 0 }
+
+theorem storeNul_toM (cc : CC) : toM (storeNul cc) = { toM cc with buf := (toM cc).buf.set (toM cc).position 0 } := by
+  unfold storeNul; rw [toM_upd_data, chk_toM, chk_data, chk_pos]; rfl
+@[simp] theorem storeNul_pos (cc : CC) : (storeNul cc).buffer_position = cc.buffer_position := chk_pos _ _
+@[simp] theorem storeNul_len (cc : CC) : (storeNul cc).buffer_length = cc.buffer_length := chk_len _ _
+@[simp] theorem storeNul_oof (cc : CC) : (storeNul cc).outOfFuel = cc.outOfFuel := chk_oof _ _
+@[simp] theorem storeNul_data (cc : CC) : (storeNul cc).buffer_data = cc.buffer_data.set cc.buffer_position.toNat 0 := by
+  unfold storeNul; simp only [chk_data, chk_pos]
+@[simp] theorem storeNul_ub (cc : CC) : (storeNul cc).ub =
+    (cc.ub || !decide (0 ≤ cc.buffer_position ∧ cc.buffer_position < cc.buffer_data.length)) := chk_ub _ _
+
+theorem storeNul_ub_inv {cc : CC} (hi : Inv cc) : (storeNul cc).ub = false := by
+  obtain ⟨w1, w2, w3⟩ := hi.wf
+  simp only [toM_buf, toM_position, toM_bufLen] at w1 w2
+  have := hi.pos0
+  simp only [storeNul_ub, hi.ub, Bool.false_or, Bool.not_eq_false', decide_eq_true_eq]; omega
+
+attribute [local irreducible] Ctx.parse Parser.detectUnit in
+theorem input_flush_eq (cc : CC) : SCPI_Input detectM parseM pushM cc (some []) 0 =
+    ({ (parseM (storeNul cc) 0 (wrapS32 (storeNul cc).buffer_position)).1 with buffer_position := 0 },
+      (parseM (storeNul cc) 0 (wrapS32 (storeNul cc).buffer_position)).2) := by
+  simp only [SCPI_Input, beq_self_eq_true, if_true]
+  rfl
+
+attribute [local irreducible] Ctx.parse in
+theorem input_nil (m : Ctx) : Ctx.input m [] =
+    emit { (Ctx.parse { m with buf := m.buf.set m.position 0 } 0 m.position).1 with position := 0 }
+      (.input (Ctx.parse { m with buf := m.buf.set m.position 0 } 0 m.position).2) := rfl
+
+attribute [local irreducible] Ctx.parse in
+/-- flush: a zero-length call terminates the pending bytes, parses them as one message and empties the buffer -/
+theorem input_flush_refines (cc : CC) (hi : Inv cc) :
+    Ctx.input (toM cc) [] = emit (toM (SCPI_Input detectM parseM pushM cc (some []) 0).1)
+        (.input (SCPI_Input detectM parseM pushM cc (some []) 0).2) ∧
+    (SCPI_Input detectM parseM pushM cc (some []) 0).1.ub = false ∧
+    (SCPI_Input detectM parseM pushM cc (some []) 0).1.outOfFuel = false := by
+  obtain ⟨w1, w2, w3⟩ := hi.wf
+  simp only [toM_buf, toM_position, toM_bufLen] at w1 w2
+  have hpos := hi.pos0
+  have hlm := hi.lenmax
+  have e1 : wrapS32 cc.buffer_position = cc.buffer_position := wrapS32_of_range _ (by omega) (by omega)
+  rw [input_flush_eq, storeNul_pos, e1, input_nil]
+  refine ⟨?_, ?_, ?_⟩
+  · show _ = emit (toM { (parseM (storeNul cc) 0 cc.buffer_position).1 with buffer_position := 0 }) (.input (parseM (storeNul cc) 0 cc.buffer_position).2)
+    rw [toM_upd_pos (parseM (storeNul cc) 0 cc.buffer_position).1 0, parseM_toM (storeNul cc), parseM_snd (storeNul cc), storeNul_toM cc]
+    rfl
+  · show (parseM (storeNul cc) 0 cc.buffer_position).1.ub = false
+    rw [parseM_ub]; exact storeNul_ub_inv hi
+  · show (parseM (storeNul cc) 0 cc.buffer_position).1.outOfFuel = false
+    rw [parseM_oof, storeNul_oof]; exact hi.oof
+
+theorem inv_storeNul {cc : CC} (hi : Inv cc) : Inv (storeNul cc) := by
+  refine ⟨storeNul_ub_inv hi, ?_, ?_, ?_, ?_, ?_, ?_, ?_⟩
+  · rw [storeNul_oof]; exact hi.oof
+  · rw [storeNul_pos]; exact hi.pos0
+  · rw [storeNul_len]; exact hi.len0
+  · rw [storeNul_len]; exact hi.lenmax
+  · rw [storeNul_toM]; show (List.set _ _ _).length = _
+    rw [List.length_set]; exact hi.wf.1
+  · rw [storeNul_toM]; exact hi.wf.2.1
+  · rw [storeNul_toM]; exact hi.wf.2.2
+
+/-- `memcpy(&context->buffer.data[context->buffer.position], data, len); context->buffer.position += len;` with the CHECK -/
+def copyIn (cc : CC) (data : Option Bytes) (len : Int) : CC :=
+  let c := cc.chk (data.isSome && decide (0 ≤ cc.buffer_position ∧ cc.buffer_position + (wrapU64 len) ≤ cc.buffer_data.length ∧ 0 ≤ 0 ∧ 0 + (wrapU64 len) ≤ (data.getD []).length))
+  let c := { c with buffer_data := bwrite c.buffer_data c.buffer_position (bslice (data.getD []) 0 (wrapU64 len)) }
+  { c with buffer_position := wrapU64 (c.buffer_position + (wrapU64 len)) }
+
+theorem copyIn_toM (cc : CC) (data : Option Bytes) (len : Int) : toM (copyIn cc data len) =
+    { toM cc with buf := bwrite cc.buffer_data cc.buffer_position (bslice (data.getD []) 0 (wrapU64 len)),
+                  position := (wrapU64 (cc.buffer_position + wrapU64 len)).toNat } := by
+  unfold copyIn
+  simp only [chk_data, chk_pos]
+  rw [toM_upd, chk_toM]
+@[simp] theorem copyIn_pos (cc : CC) (data : Option Bytes) (len : Int) :
+    (copyIn cc data len).buffer_position = wrapU64 (cc.buffer_position + wrapU64 len) := by
+  unfold copyIn; simp only [chk_pos]
+@[simp] theorem copyIn_len (cc : CC) (data : Option Bytes) (len : Int) : (copyIn cc data len).buffer_length = cc.buffer_length := chk_len _ _
+@[simp] theorem copyIn_oof (cc : CC) (data : Option Bytes) (len : Int) : (copyIn cc data len).outOfFuel = cc.outOfFuel := chk_oof _ _
+@[simp] theorem copyIn_data (cc : CC) (data : Option Bytes) (len : Int) : (copyIn cc data len).buffer_data =
+    bwrite cc.buffer_data cc.buffer_position (bslice (data.getD []) 0 (wrapU64 len)) := by
+  unfold copyIn; simp only [chk_data, chk_pos]
+@[simp] theorem copyIn_ub (cc : CC) (data : Option Bytes) (len : Int) : (copyIn cc data len).ub =
+    (cc.ub || !(data.isSome && decide (0 ≤ cc.buffer_position ∧ cc.buffer_position + (wrapU64 len) ≤ cc.buffer_data.length ∧ 0 ≤ 0 ∧ 0 + (wrapU64 len) ≤ (data.getD []).length))) := chk_ub _ _
+
+/-- the path of a chunk that fits, from the state after the overrun test: copy, terminate, scan -/
+def fitsPath (c0 : CC) (data : Option Bytes) (len : Int) : CC × Bool :=
+  let c2 := storeNul (copyIn c0 data len)
+  let L := SCPI_Input_loop1 detectM parseM pushM ((c2.buffer_position + 2).toNat) c2 true 0 0
+  (L.1, L.2.1)
+
+attribute [local irreducible] Ctx.parse Parser.detectUnit inputLoop in
+theorem input_nonempty_fits (m : Ctx) (data : Bytes) (hd : (data.length == 0) = false)
+    (hov : ¬ data.length + 1 > m.bufLen - m.position) : Ctx.input m data =
+    emit (inputLoop (m.position + data.length + 2)
+        { m with buf := (poke m.buf m.position data).set (m.position + data.length) 0, position := m.position + data.length } 0 true).1
+      (.input (inputLoop (m.position + data.length + 2)
+        { m with buf := (poke m.buf m.position data).set (m.position + data.length) 0, position := m.position + data.length } 0 true).2) := by
+  simp only [Ctx.input, hd, Bool.false_eq_true, if_false, hov]
+
+attribute [local irreducible] Ctx.parse Parser.detectUnit inputLoop SCPI_Input_loop1 in
+theorem fitsPath_refines (c0 : CC) (hi : Inv c0) (data : Bytes) (hd : data ≠ [])
+    (hov : ¬ data.length + 1 > (toM c0).bufLen - (toM c0).position) :
+    Ctx.input (toM c0) data = emit (toM (fitsPath c0 (some data) data.length).1) (.input (fitsPath c0 (some data) data.length).2) ∧
+    (fitsPath c0 (some data) data.length).1.ub = false ∧ (fitsPath c0 (some data) data.length).1.outOfFuel = false := by
+  obtain ⟨w1, w2, w3⟩ := hi.wf
+  simp only [toM_buf, toM_position, toM_bufLen] at w1 w2
+  have hpos := hi.pos0
+  have hlm := hi.lenmax
+  have hl0 := hi.len0
+  have hd1 : data.length ≠ 0 := by intro h; exact hd (List.length_eq_zero_iff.mp h)
+  have hd'' : (data.length == 0) = false := by simp [hd1]
+  have hov' : ¬ data.length + 1 > c0.buffer_length.toNat - c0.buffer_position.toNat := hov
+  have e2 : wrapU64 (data.length : Int) = data.length := wrapU64_of_range _ (by omega) (by omega)
+  have e3 : wrapU64 (c0.buffer_position + data.length) = c0.buffer_position + data.length := wrapU64_of_range _ (by omega) (by omega)
+  have hsl : bslice data 0 (data.length : Int) = data := by
+    simp only [bslice_eq, Int.toNat_zero, List.drop_zero, Int.toNat_natCast, List.take_length]
+  have hbw : bwrite c0.buffer_data c0.buffer_position data = poke c0.buffer_data c0.buffer_position.toNat data :=
+    bwrite_eq_poke _ _ _ hpos (by omega)
+  have hn : (c0.buffer_position + (data.length : Int)).toNat = c0.buffer_position.toNat + data.length := by omega
+  -- the state the loop starts from
+  have hc1 : toM (copyIn c0 (some data) data.length) =
+      { toM c0 with buf := poke (toM c0).buf (toM c0).position data, position := (toM c0).position + data.length } := by
+    rw [copyIn_toM, e2, e3, Option.getD_some, hsl, hbw, hn]; rfl
+  have hi1 : Inv (copyIn c0 (some data) data.length) := by
+    refine ⟨?_, ?_, ?_, ?_, ?_, ?_, ?_, ?_⟩
+    · simp only [copyIn_ub, hi.ub, Bool.false_or, e2, Option.isSome_some, Bool.true_and, Option.getD_some, Bool.not_eq_false',
+        decide_eq_true_eq]
+      omega
+    · rw [copyIn_oof]; exact hi.oof
+    · rw [copyIn_pos, e2, e3]; omega
+    · rw [copyIn_len]; exact hl0
+    · rw [copyIn_len]; exact hlm
+    · rw [hc1]; show (poke _ _ _).length = _
+      rw [Bounds.poke_length]; exact hi.wf.1
+    · rw [hc1]; show c0.buffer_position.toNat + data.length < c0.buffer_length.toNat; omega
+    · rw [hc1]; exact w3
+  have hi2 := inv_storeNul hi1
+  have hc2 : toM (storeNul (copyIn c0 (some data) data.length)) =
+      { toM c0 with buf := (poke (toM c0).buf (toM c0).position data).set ((toM c0).position + data.length) 0,
+                    position := (toM c0).position + data.length } := by
+    rw [storeNul_toM, hc1]
+  have hp2 : (storeNul (copyIn c0 (some data) data.length)).buffer_position = c0.buffer_position + data.length := by
+    rw [storeNul_pos, copyIn_pos, e2, e3]
+  have hL := loop_refines ((storeNul (copyIn c0 (some data) data.length)).buffer_position + 2).toNat _ true 0 0 hi2 (Int.le_refl 0)
+    (by rw [hp2]; omega) (by rw [hp2]; omega)
+  rw [input_nonempty_fits _ _ hd'' hov]
+  have hfu : ((storeNul (copyIn c0 (some data) data.length)).buffer_position + 2).toNat = (toM c0).position + data.length + 2 := by
+    rw [hp2]; show _ = c0.buffer_position.toNat + data.length + 2; omega
+  have h1 := hL.1
+  rw [hc2, Int.toNat_zero] at h1
+  refine ⟨?_, hL.2.ub, hL.2.oof⟩
+  rw [← hfu, ← h1]
+  rfl
+
+theorem inv_chk {cc : CC} (hi : Inv cc) {b : Bool} (hb : b = true) : Inv (cc.chk b) := by
+  subst hb; exact hi
+
+attribute [local irreducible] Ctx.parse Parser.detectUnit inputLoop SCPI_Input_loop1 in
+/-- the text of the generated SCPI_Input on the path of a chunk that fits -/
+theorem input_fits_eq (cc : CC) (data : Option Bytes) (len : Int) (h0 : (len == 0) = false)
+    (hov : ¬ len > wrapS32 (wrapU64 (cc.buffer_length - cc.buffer_position)) - 1) :
+    SCPI_Input detectM parseM pushM cc data len =
+      fitsPath (cc.chk (decide ((-2147483648) ≤ wrapS32 (wrapU64 (cc.buffer_length - cc.buffer_position)) - 1 ∧
+        wrapS32 (wrapU64 (cc.buffer_length - cc.buffer_position)) - 1 ≤ 2147483647))) data len := by
+  simp only [SCPI_Input, h0, Bool.false_eq_true, if_false, hov, decide_false]
+  rfl
+
+/-- the chunk fits: it is copied behind the pending bytes, terminated, and the scan loop runs -/
+theorem input_fits_refines (cc : CC) (hi : Inv cc) (data : Bytes) (hd : data ≠ [])
+    (hov : ¬ data.length + 1 > (toM cc).bufLen - (toM cc).position) :
+    Ctx.input (toM cc) data = emit (toM (SCPI_Input detectM parseM pushM cc (some data) data.length).1)
+        (.input (SCPI_Input detectM parseM pushM cc (some data) data.length).2) ∧
+    (SCPI_Input detectM parseM pushM cc (some data) data.length).1.ub = false ∧
+    (SCPI_Input detectM parseM pushM cc (some data) data.length).1.outOfFuel = false := by
+  obtain ⟨w1, w2, w3⟩ := hi.wf
+  simp only [toM_buf, toM_position, toM_bufLen] at w1 w2 hov
+  have hpos := hi.pos0
+  have hlm := hi.lenmax
+  have hl0 := hi.len0
+  have hd1 : data.length ≠ 0 := by intro h; exact hd (List.length_eq_zero_iff.mp h)
+  have hd' : ((data.length : Int) == 0) = false := by simp [hd1]
+  have e1 : wrapS32 (wrapU64 (cc.buffer_length - cc.buffer_position)) = cc.buffer_length - cc.buffer_position := by
+    rw [wrapU64_of_range _ (by omega) (by omega), wrapS32_of_range _ (by omega) (by omega)]
+  rw [input_fits_eq cc (some data) data.length hd' (by rw [e1]; omega)]
+  have hb : decide ((-2147483648) ≤ wrapS32 (wrapU64 (cc.buffer_length - cc.buffer_position)) - 1 ∧
+        wrapS32 (wrapU64 (cc.buffer_length - cc.buffer_position)) - 1 ≤ 2147483647) = true := by
+    rw [e1, decide_eq_true_eq]; omega
+  have := fitsPath_refines _ (inv_chk hi hb) data hd (by rw [chk_toM]; exact hov)
+  rw [chk_toM] at this
+  exact this
+
+/-- generated SCPI_Input = hand model `Ctx.input` (the hand model logs the return value as an event), for every state `Inv`
+describes and every chunk whose length is a C `int` - the empty one (flush) and over-long ones included; no CHECK fails and
+the loop does not run out of fuel -/
+theorem input_refines_inv (cc : CC) (hi : Inv cc) (data : Bytes) (hlen : data.length ≤ 2147483647) :
+    Ctx.input (toM cc) data = emit (toM (SCPI_Input detectM parseM pushM cc (some data) data.length).1)
+        (.input (SCPI_Input detectM parseM pushM cc (some data) data.length).2) ∧
+    (SCPI_Input detectM parseM pushM cc (some data) data.length).1.ub = false ∧
+    (SCPI_Input detectM parseM pushM cc (some data) data.length).1.outOfFuel = false := by
+  by_cases hd : data = []
+  · subst hd; exact input_flush_refines cc hi
+  · by_cases hov : data.length + 1 > (toM cc).bufLen - (toM cc).position
+    · have := input_overrun_refines cc hi data hd hlen hov
+      exact ⟨this.1, this.2.1, this.2.2.1⟩
+    · exact input_fits_refines cc hi data hd hov
+
+/-- the same from a well-formed hand-model context whose buffer length fits an `int`, whatever parser_state holds -/
+theorem input_refines (c : Ctx) (data : Bytes) (t ht : Int) (h : WF c) (hl : c.bufLen ≤ 2147483647)
+    (hlen : data.length ≤ 2147483647) :
+    Ctx.input c data = emit (toM (SCPI_Input detectM parseM pushM (toC c t ht) (some data) data.length).1)
+        (.input (SCPI_Input detectM parseM pushM (toC c t ht) (some data) data.length).2) ∧
+    (SCPI_Input detectM parseM pushM (toC c t ht) (some data) data.length).1.ub = false ∧
+    (SCPI_Input detectM parseM pushM (toC c t ht) (some data) data.length).1.outOfFuel = false := by
+  have := input_refines_inv (toC c t ht) (inv_toC c t ht h hl) data hlen
+  rw [toM_toC] at this
+  exact this
+
 end ScpiVerif.Lemmas.InputC
